@@ -3,8 +3,7 @@ package c09
 import (
 	"encoding/json"
 	"fmt"
-	"os"
-	"runtime/pprof"
+	"crypto/md5"
 	"sort"
 	"strings"
 	"sync"
@@ -51,10 +50,11 @@ func plan(thorough bool) []family {
 	return []family{
 		{Name: "1-layer", Shapes: []string{"r", "p"}, Backends: allBackends, Depth: 4, NKeys: 3, NVals: 2, LowerWrites: true},
 		{Name: "1-layer/4keys-3values", Shapes: []string{"r", "p"}, Backends: allBackends, Depth: 3, NKeys: 4, NVals: 3, LowerWrites: true},
-		{Name: "2-layers", Shapes: []string{"rr", "rp", "pp", "pr"}, Backends: allBackends, Depth: 3, NKeys: 3, NVals: 2, LowerWrites: true},
+		{Name: "2-layers", Shapes: []string{"rr", "rp", "pp", "pr"}, Backends: allBackends, Scens: scMix, Depth: 3, NKeys: 3, NVals: 2, LowerWrites: true},
+		{Name: "2-layers/M", Shapes: []string{"rr", "rp", "pp", "pr"}, Backends: allBackends, Scens: scM, Depth: 2, NKeys: 3, NVals: 2, LowerWrites: true},
 		{Name: "3-layers", Shapes: []string{"rrr", "rrp", "rpr", "rpp", "prr", "prp", "ppr", "ppp"}, Backends: allBackends, Depth: 2, NKeys: 3, NVals: 2, LowerWrites: true},
-		{Name: "3-layers/deep", Shapes: []string{"rrr", "rrp", "rpp", "ppp"}, Backends: allBackends, Scens: scMix, Depth: 3, NKeys: 2, NVals: 2, LowerWrites: true},
-		{Name: "4-layers", Shapes: []string{"rrrr", "rrrp", "rrpp", "rppp", "pppp", "prpr"}, Backends: allBackends, Scens: scMix, Depth: 2, NKeys: 3, NVals: 2, LowerWrites: true},
+		{Name: "3-layers/deep", Shapes: []string{"rrr", "rpp"}, Backends: allBackends, Scens: scMix, Depth: 3, NKeys: 2, NVals: 2, LowerWrites: true},
+		{Name: "4-layers", Shapes: []string{"rrrr", "rrpp", "rppp", "pppp"}, Backends: allBackends, Scens: scMix, Depth: 2, NKeys: 3, NVals: 2, LowerWrites: true},
 	}
 }
 
@@ -199,6 +199,12 @@ func (co *collector) flush(r *vk.Run) {
 	}
 }
 
+// digest shortens a dedupe key (millions of them are kept in the thorough tier).
+func digest(s string) string {
+	h := md5.Sum([]byte(s))
+	return string(h[:])
+}
+
 // ---- running one sequence ----------------------------------------------------------
 
 type explorer struct {
@@ -279,11 +285,11 @@ func (e *explorer) runSeq(en *env, c *stackCase, seq []int, forceFull bool, out 
 	keys := m.levelKeys()
 	for t := range fullLv {
 		fullLv[t] = forceFull
-		if e.levels.Add(fmt.Sprintf("%d/%d/%s", c.idx, t, keys[t])) {
+		if e.levels.Add(digest(fmt.Sprintf("%d/%d/%s", c.idx, t, keys[t]))) {
 			fullLv[t] = true
 		}
 	}
-	if e.states.Add(fmt.Sprintf("%d/%s", c.idx, keys[len(keys)-1])) {
+	if e.states.Add(digest(fmt.Sprintf("%d/%s", c.idx, keys[len(keys)-1]))) {
 		live := 0
 		for _, l := range m.ly {
 			if len(l) > 0 {
@@ -368,11 +374,6 @@ func TestCheck(t *testing.T) {
 	}
 	fams := plan(r.Thorough())
 	cases := buildCases(fams)
-	if pf := os.Getenv("C09_CPUPROFILE"); pf != "" { // development aid
-		f, _ := os.Create(pf)
-		_ = pprof.StartCPUProfile(f)
-		defer pprof.StopCPUProfile()
-	}
 	e := &explorer{r: r, co: &collector{best: map[string]*caseRec{}, count: map[string]int64{}, reported: map[string]bool{}},
 		states: vk.NewSet(), levels: vk.NewSet(), famStat: map[string]*[3]int64{}, out: map[string]int{}, envs: make(chan *env, r.Workers())}
 	for i := 0; i < r.Workers(); i++ {
@@ -469,7 +470,7 @@ func TestCheck(t *testing.T) {
 		}
 		scDesc = append(scDesc, fmt.Sprintf("%s keys %s: %d ranges (+%d empty-prefix ranges on disk backends), %d Find prefixes", sc.Name, strings.Join(ks, " "), len(sc.Ranges), len(sc.BeRanges), len(sc.UserPfx)))
 	}
-	pprof.StopCPUProfile()
+	vk.CleanScratch()
 	outc := map[string]int{}
 	for k, v := range e.out {
 		outc[k] = v
@@ -541,5 +542,6 @@ func replay(r *vk.Run) {
 		fmt.Printf("  %dx %s\n", v, k)
 	}
 	e.co.flush(r)
+	vk.CleanScratch()
 	r.Finish(map[string]any{"states": 1, "transitions": 5 * len(c.OpIdx), "traces_validated_against_impl": 5}, nil)
 }
